@@ -20,6 +20,15 @@ closed counterexamples.
 import Neutrino.Props.C03
 namespace Neutrino.CFHeaders
 
+/-- what the theorems below rely on in the source (regenerated on every run): `cfHandler` enters the
+checkpointed phase on the block tip alone (`checkpointedPhase`), fetches unconditionally after it, and
+`resolveConflict` ranges over every peer's whole list when it calls `chainsync.ValidateCFHeader`
+(`contradictsHard` = the scan from index 0) -/
+theorem C03_resume_source_facts :
+    Gen.CFHeaders.checkpointedPhaseCond = "len(goodCheckpoints)==0&&lastHeight>=wire.CFCheckptInterval" ∧
+    Gen.CFHeaders.checkpointedFetchUnconditional = true ∧
+    Gen.CFHeaders.hardScanWholeLists = true := by decide
+
 /-- a checkpoint-interval boundary in (F, B] puts the block tip at or above the first interval -/
 theorem C03_checkpointed_phase_resume (interval F B k : Nat) (hF : F < k * interval) (hB : k * interval ≤ B) :
     checkpointedPhase interval B = true := by
